@@ -82,7 +82,12 @@ def impl(sc, keep=None):
                 other = impl_root(dict(sc["root"], k=(sc["root"]["k"] * 7 + 11) % hd.N or 5, chain="5c" * 32))
                 for j in range(sc["warm"]):
                     attempt(other.ckd, 1000 + j)
-            return attempt(lambda: canon_impl_node(root.ckd(sc["i"])))
+            def one_step():
+                ch = root.ckd(sc["i"])
+                if keep is not None:
+                    keep["child"] = ch
+                return canon_impl_node(ch)
+            return attempt(one_step)
         if op == "derive":
             return attempt(lambda: canon_impl_node(root.derive_path(list(sc["path"]))))
         return attempt(lambda: [canon_impl_node(c) for c in root.generate_children(tuple(sc["interval"]))])
@@ -171,6 +176,19 @@ def parse_path(s):
     return out
 
 
+def kids(node):
+    """the child nodes a node remembers, however it stores them (list, tuple, dict by index, nothing at all)"""
+    c = getattr(node, "children", None)
+    if c is None:
+        return []
+    if isinstance(c, dict):
+        c = c.values()
+    try:
+        return [x for x in c if hasattr(x, "chain_code")]
+    except TypeError:
+        return []
+
+
 # ------------------------------------------------------------------ after-state: no invalid node may be stored
 def stored_invalid(root):
     """Walk root.children recursively; return description of the first stored node whose key is invalid."""
@@ -191,5 +209,5 @@ def stored_invalid(root):
                 secp.parse_sec(key)
             except ValueError:
                 return "public node %s with key %s" % (str(n), key.hex())
-        stack.extend(n.children)
+        stack.extend(kids(n))
     return None
